@@ -191,6 +191,53 @@ def cases(draw, switches):
     return full.add_layout(draw, c, switches)
 
 
+FUNCTION_PROBES = ['10 A=INT(B)', '10 A=VAL("1")', '10 A$=STR$(B)', '10 A$=HEX$(B)', '10 A=INSTR(1,A$,"B")', '10 A$=STRING$(3,"*")', '10 A$=INKEY$', '10 A=BUTTON(0)',
+                   '10 A=POINT(1,2)', '10 PRINT A', '10 PRINT@5,A', '10 INPUT A', '10 LINE INPUT A$', '10 READ A\n20 DATA 1,', '10 ON ERR GOTO 10', '10 PRINT TAB(3);"X"',
+                   '10 PLAY "CDE":HDRAW "U5":A$=STRING$(2,"*"):PRINT A:INPUT B', '10 HBUFF 1,20:HGET(1,1)-(2,2),1:HPUT(1,1)-(2,2),1,PSET']
+
+
+def enumerate_library(part, nparts, switches=frozenset()):
+    """Every device statement form and every converted function as a one-line program, at three string sizes and two procedure names: the bundle
+    of each must be complete, minimal, ordered, and have every placeholder replaced (so every library procedure's closure is exercised each run)."""
+    stats = Stats()
+    sources = []
+    for form in full.DEVICE_FORMS:
+        if form == "HPRINT n" and "hprint_string_only" in switches:
+            continue
+        if form.startswith("JOYSTK") and "no_joystk" in switches:
+            continue
+        fg = full.FullGen(None, switches, operand_depth=0)
+        counter = [1]
+
+        def lit():
+            counter[0] += 1
+            return ["num", str(counter[0]), counter[0]]
+
+        fg.e = lit
+        fg.first_operand = lit
+        fg.width_operand = lambda: ["num", "40", 40]
+        fg.es = lambda: ["str", "S%d" % counter[0]]
+        s_ = ["poke", ["num", "1024", 1024], ["num", "7", 7]] if form == "POKE" else fg.device(form)[0]
+        sources.append(("form " + form, render.render([[10, [s_]]])))
+    sources += [("probe " + p_[3:20], p_) for p_ in FUNCTION_PROBES]
+    k = 0
+    for label, src in sources:
+        for size in (32, 80, 1000):
+            for pn in ("prog", "zz_last"):
+                k += 1
+                if k % nparts != part:
+                    continue
+                case = {"source": src, "size": size, "procname": pn, "initialize_vars": size == 80}
+                try:
+                    check_case(case)
+                except Violation as v:
+                    stats.fail(v.detail, v.case)
+                    return stats
+                stats.case(key=[src, size, pn], nontrivial=case.get("_status") == "ok", classes=["library_sweep", "status_" + case.get("_status", "?")] +
+                           (["closure_ge_3"] if case.get("_closure", 0) >= 3 else []), sample={"source": src, "size": size})
+    return stats
+
+
 def campaign(seed, n, switches=frozenset()):
     stats = Stats()
 
@@ -219,5 +266,11 @@ def campaign(seed, n, switches=frozenset()):
 
 def plan(tier, seed, switches):
     if tier == "quick":
-        return [("campaign", [dict(seed=seed * 100 + k, n=200, switches=switches) for k in range(4)])]
-    return [("campaign", [dict(seed=seed * 1000 + k, n=2000, switches=switches) for k in range(16)])]
+        return [("campaign", [dict(seed=seed * 100 + k, n=200, switches=switches) for k in range(4)]),
+                ("enumerate_library", [dict(part=k, nparts=4, switches=switches) for k in range(4)])]
+    return [("campaign", [dict(seed=seed * 1000 + k, n=2000, switches=switches) for k in range(16)]),
+            ("enumerate_library", [dict(part=k, nparts=4, switches=switches) for k in range(4)])]
+
+
+def evidence_extra(stats):
+    return {"exhaustive_part": "every device statement form and every converted function is bundled as a one-line program at sizes 32 / 80 / 1000 under two procedure names on every run"}
